@@ -1,12 +1,9 @@
-(* C01 - compiler correctness, assembled: for every well-formed segment without persistent groups and EVERY visiting
+(* C01 - compiler correctness, assembled: for every well-formed segment, every asset accessor and EVERY visiting
    order, the compiler model succeeds and its output is accepted by the (sound) validator. *)
 Require Import List Bool ZArith Arith Lia.
 From FV Require Import Lib.Sym Model.C01 Model.C01Compile Proofs.C01Prim Proofs.C01Blocks Proofs.C01Inv Proofs.C01Step
                        Proofs.C01Canon Proofs.C01Emit.
 Import ListNotations.
-
-Definition nopers_b (a : assets) (nodes : list node) : bool :=
-  forallb (fun n => negb (nstateful n && persistent a (ngid n))) nodes.
 
 Lemma nodupb_spec l : nodupb l = true -> NoDup l.
 Proof.
@@ -15,19 +12,11 @@ Proof.
   assert (Y : existsb (Nat.eqb x) l = true) by (apply existsb_exists; exists x; split; [exact X|apply Nat.eqb_refl]). congruence.
 Qed.
 
-Lemma trainer_found nodes g : forall m k ndk, k < m -> nth_error nodes k = Some ndk -> ngid ndk = g -> is_train ndk = true ->
-  exists k', trainer nodes m g = Some k'.
-Proof.
-  intros m k ndk Hk Hn Hg Ht. destruct (trainer nodes m g) as [k'|] eqn:E; [eauto|].
-  rewrite (trainer_none nodes g m E k ndk Hk Hn Hg) in Ht. discriminate.
-Qed.
-
 Section Main.
 Variable a : assets.
 Variable nodes : list node.
 Variable visit : list nat.
 Hypothesis Hwf : wfb a nodes visit = true.
-Hypothesis Hnp : nopers_b a nodes = true.
 
 Lemma node_ok_nth i nd : nth_error nodes i = Some nd -> node_ok nodes i nd = true.
 Proof.
@@ -66,8 +55,24 @@ Proof.
     destruct (nkind nd) as [|tr lb]; [discriminate|]. apply andb_prop in H. destruct H as [H _]. apply andb_prop in H. exact (proj2 H).
   - intros i nd i' nd' Hn Hn' Ht Ht' Hg. pose proof (total_trainer i nd Hn Ht) as E1. pose proof (total_trainer i' nd' Hn' Ht') as E2.
     rewrite Hg in E1. congruence.
-  - intros i nd Hn. pose proof Hnp as W. unfold nopers_b in W. rewrite forallb_forall in W. specialize (W nd (nth_error_In _ _ Hn)).
-    unfold pers. apply negb_true_iff in W. exact W.
+  - intros l Hl. pose proof Hwf as W. unfold wfb in W. repeat (apply andb_prop in W; destruct W as [W ?]).
+    assert (HA : assets_ok a nodes = true) by assumption. unfold assets_ok in HA. rewrite Hl in HA. apply andb_prop in HA. exact (nodupb_spec _ (proj1 HA)).
+Qed.
+
+Lemma main_commit : forall l, a = Some l ->
+  (forall gt, In gt l -> exists k ndk, nth_error nodes k = Some ndk /\ is_train ndk = true /\ ngid ndk = fst gt)
+  \/ (forall gt k ndk, In gt l -> nth_error nodes k = Some ndk -> is_train ndk = true -> ngid ndk = fst gt -> False).
+Proof.
+  intros l Hl. pose proof Hwf as W. unfold wfb in W. repeat (apply andb_prop in W; destruct W as [W ?]).
+  assert (HA : assets_ok a nodes = true) by assumption. unfold assets_ok in HA. rewrite Hl in HA. apply andb_prop in HA. destruct HA as [_ X].
+  apply orb_prop in X. destruct X as [X|X].
+  - left. intros gt Hgt. rewrite forallb_forall in X. specialize (X gt Hgt).
+    destruct (trainer nodes (List.length nodes) (fst gt)) as [k|] eqn:E; [|discriminate].
+    destruct (trainer_some nodes (fst gt) _ k E) as [_ [ndk [Hnk [Hg Htk]]]]. exists k, ndk. auto.
+  - right. intros gt k ndk Hgt Hnk Htk Hg. rewrite forallb_forall in X. specialize (X gt Hgt).
+    destruct (trainer nodes (List.length nodes) (fst gt)) as [k'|] eqn:E; [discriminate|].
+    assert (Hk : k < List.length nodes) by (apply nth_error_Some; rewrite Hnk; discriminate).
+    rewrite (trainer_none nodes (fst gt) _ E k ndk Hk Hnk Hg) in Htk. discriminate.
 Qed.
 
 Lemma main_trainer_first : forall i nd k ndk, nth_error nodes i = Some nd -> nth_error nodes k = Some ndk ->
@@ -88,13 +93,13 @@ Proof.
     - intros i Hi. match goal with X : forallb _ visit = true |- _ => rewrite forallb_forall in X; apply Nat.ltb_lt; exact (X i Hi) end.
     - apply Nat.eqb_eq. assumption. }
   destruct Hv as [Hnd [Hlt Hlen]].
-  destruct (fold_add a nodes wf visit [] empty [] (inv_empty a nodes) Hnd (fun i _ X => X) Hlt) as [T [B [S [Hfold [Hinv Hmem]]]]].
-  assert (Hall : forall i nd, nth_error nodes i = Some nd -> In i S).
+  destruct (fold_add a nodes wf visit [] empty [] (inv_empty a nodes) Hnd (fun i _ X => X) Hlt) as [T [B [S0 [Hfold [Hinv Hmem]]]]].
+  assert (Hall : forall i nd, nth_error nodes i = Some nd -> In i S0).
   { intros i nd Hn. apply Hmem. left.
     assert (Hinc : incl (seq 0 (List.length nodes)) visit).
     { apply NoDup_length_incl; [exact Hnd|rewrite seq_length; lia|]. intros j Hj. apply in_seq. specialize (Hlt j Hj). lia. }
     apply Hinc. apply in_seq. split; [lia|]. simpl. apply nth_error_Some. rewrite Hn. discriminate. }
-  destruct (symbols_lfacts a nodes wf S T B Hinv Hall) as [L [Hsym HL]].
+  destruct (symbols_lfacts a nodes wf S0 T B Hinv Hall main_commit) as [L [Hsym HL]].
   destruct (canon_some a nodes L HL) as [t Ht].
   unfold compile_ok, compile. rewrite Hfold. simpl. rewrite Hsym. simpl. rewrite Ht.
   rewrite (lfacts_validate a nodes wf main_trainer_first L HL t Ht).
